@@ -400,6 +400,22 @@ def decreaseOwner (s : St) (owner amount : Nat) : St :=
 def increaseUser (s : St) (user amount : Nat) : St :=
   { s with userTotal := upd s.userTotal user (s.userTotal user + amount) }
 
+/-- the farming tokens of an `enterFarm` arrive in the contract -/
+def addFarming (s : St) (amt : Nat) : St := { s with balFarming := s.balFarming + amt }
+
+/-- `amt` farming tokens leave the contract (paid to the user, `pen` of them burned as penalty) -/
+def removeFarming (s : St) (amt pen : Nat) : Option St := do
+  let bal ← sub? s.balFarming amt
+  pure { s with balFarming := bal, penaltyBurned := s.penaltyBurned + pen }
+
+/-- a compounded reward stays in the contract: it moves from the reward part of the balance to the
+    farming part and counts as paid -/
+def compoundMove (s : St) (base boosted : Nat) : Option St := do
+  let bal ← sub? s.balReward (base + boosted)
+  pure { s with balReward := bal, balFarming := s.balFarming + (base + boosted)
+                paid := s.paid + (base + boosted), paidBase := s.paidBase + base
+                paidBoosted := s.paidBoosted + boosted }
+
 /-- `check_and_update_user_farm_position(user, payments)` -/
 def checkAndUpdate (s : St) (user : Nat) : List (Nat × Nat) → Option St
   | [] => some s
@@ -457,8 +473,7 @@ def enterCore (s : St) (caller orig tokenTo : Nat) (amt : Nat) (extra : List (Na
     Option (St × Out) := do
   req (amt ≠ 0)
   let s0 ← takePayments s caller extra
-  let s0 := { s0 with balFarming := s0.balFarming + amt }
-  let (s1, boosted) ← claimOnlyBoostedPayment s0 orig
+  let (s1, boosted) ← claimOnlyBoostedPayment (addFarming s0 amt) orig
   -- fwlr locks the boosted part before entering; farm sends it afterwards: same net effect on the farm,
   -- but the energy of `orig` changes before `update_energy_and_progress` in fwlr
   let s1 ← payRewardIf s1 .noMint orig 0 boosted
@@ -501,12 +516,7 @@ def enterFarmOnBehalf (s : St) (caller user : Nat) (amt : Nat) (extra : List (Na
 /-- the end of `claimRewards` (pay the reward out) / of `compoundRewards` (the reward stays in the
     contract as farming tokens; `update_energy_and_progress`) -/
 def claimTail (s : St) (compound : Bool) (orig base boosted : Nat) : Option St :=
-  if compound then do
-    let bal ← sub? s.balReward (base + boosted)
-    let s1 := { s with balReward := bal, balFarming := s.balFarming + (base + boosted)
-                       paid := s.paid + (base + boosted), paidBase := s.paidBase + base
-                       paidBoosted := s.paidBoosted + boosted }
-    updateEnergyAndProgress s1 orig
+  if compound then (compoundMove s base boosted).bind fun s1 => updateEnergyAndProgress s1 orig
   else payReward s orig base boosted
 
 /-- `claim_rewards_base` + endpoint tail; `compound = true` is `compound_rewards_base`. -/
@@ -607,9 +617,7 @@ def exitFarm (s : St) (caller : Nat) (opt : Option Nat) (n a : Nat) : Option (St
   let s4 ← setFarmSupplyWeek s3 c2.supply
   let pen ← exitPenalty s4 part.amt part.epoch
   let out ← sub? part.amt pen
-  let s5 := Cache.drop s4 c2
-  let bal ← sub? s5.balFarming part.amt
-  let s6 := { s5 with balFarming := bal, penaltyBurned := s5.penaltyBurned + pen }
+  let s6 ← removeFarming (Cache.drop s4 c2) part.amt pen
   let s7 ← payReward s6 orig base boosted
   let s8 ← clearUserEnergyIfNeeded s7 orig
   pure (s8, { rew := reward, farming := out, base := base, boosted := boosted })
